@@ -176,7 +176,12 @@ func walkNode(expr string, node promParser.Node) (src []Source) {
 		src = append(src, s)
 
 	case *promParser.UnaryExpr:
-		src = append(src, walkNode(expr, n.Expr)...)
+		for _, s := range walkNode(expr, n.Expr) {
+			if n.Op == promParser.SUB {
+				s.ReturnedNumber = -s.ReturnedNumber
+			}
+			src = append(src, s)
+		}
 
 	case *promParser.StepInvariantExpr:
 		// Not possible to get this from the parser.
@@ -387,6 +392,7 @@ func walkAggregation(expr string, n *promParser.AggregateExpr) (src []Source) {
 		for _, s = range parseAggregation(expr, n) {
 			s.Aggregation = n
 			s.Operation = "stddev"
+			s.KnownReturn = false // the result is not the value of the aggregated sample
 			s = excludeLabel(s, "Aggregation removes metric name.", n.PosRange, labels.MetricName)
 			src = append(src, s)
 		}
@@ -394,6 +400,7 @@ func walkAggregation(expr string, n *promParser.AggregateExpr) (src []Source) {
 		for _, s = range parseAggregation(expr, n) {
 			s.Aggregation = n
 			s.Operation = "stdvar"
+			s.KnownReturn = false // the result is not the value of the aggregated sample
 			s = excludeLabel(s, "Aggregation removes metric name.", n.PosRange, labels.MetricName)
 			src = append(src, s)
 		}
@@ -401,6 +408,7 @@ func walkAggregation(expr string, n *promParser.AggregateExpr) (src []Source) {
 		for _, s = range parseAggregation(expr, n) {
 			s.Aggregation = n
 			s.Operation = "count"
+			s.KnownReturn = false // the result is not the value of the aggregated sample
 			s = excludeLabel(s, "Aggregation removes metric name.", n.PosRange, labels.MetricName)
 			src = append(src, s)
 		}
@@ -408,6 +416,7 @@ func walkAggregation(expr string, n *promParser.AggregateExpr) (src []Source) {
 		for _, s = range parseAggregation(expr, n) {
 			s.Aggregation = n
 			s.Operation = "count_values"
+			s.KnownReturn = false // the result is not the value of the aggregated sample
 			// Param is the label to store the count value in.
 			s = includeLabel(s, n.Param.(*promParser.StringLiteral).Val)
 			s = guaranteeLabel(s, n.Param.(*promParser.StringLiteral).Val)
@@ -493,26 +502,35 @@ func parsePromQLFunc(s Source, expr string, n *promParser.Call) Source {
 	switch n.Func.Name {
 	case "abs", "sgn", "acos", "acosh", "asin", "asinh", "atan", "atanh", "cos", "cosh", "sin", "sinh", "tan", "tanh":
 		// No change to labels.
+		s.KnownReturn = false // the function changes the value
 		s.Returns = promParser.ValueTypeVector
 		s = guaranteeLabel(s, labelsFromSelectors(guaranteedLabelsMatches, s.Selector)...)
 
 	case "ceil", "floor", "round":
 		// No change to labels.
+		s.KnownReturn = false // the function changes the value
 		s.Returns = promParser.ValueTypeVector
 		s = guaranteeLabel(s, labelsFromSelectors(guaranteedLabelsMatches, s.Selector)...)
 
 	case "changes", "resets":
 		// No change to labels.
+		s.KnownReturn = false // the function changes the value
 		s.Returns = promParser.ValueTypeVector
 		s = guaranteeLabel(s, labelsFromSelectors(guaranteedLabelsMatches, s.Selector)...)
 
 	case "clamp", "clamp_max", "clamp_min":
 		// No change to labels.
+		s.KnownReturn = false // the function changes the value
 		s.Returns = promParser.ValueTypeVector
 		s = guaranteeLabel(s, labelsFromSelectors(guaranteedLabelsMatches, s.Selector)...)
 
 	case "absent", "absent_over_time":
 		s.Returns = promParser.ValueTypeVector
+		// absent() returns 1 when its argument returns nothing: nothing known about the argument carries over.
+		s.AlwaysReturns = false
+		s.KnownReturn = false
+		s.IsDead = false
+		s.IsDeadReason = ""
 		s.FixedLabels = true
 		s.IncludedLabels = nil
 		s.GuaranteedLabels = nil
@@ -557,11 +575,13 @@ If you're hoping to get instance specific labels this way and alert when some ta
 
 	case "deg", "rad", "ln", "log10", "log2", "sqrt", "exp":
 		// No change to labels.
+		s.KnownReturn = false // the function changes the value
 		s.Returns = promParser.ValueTypeVector
 		s = guaranteeLabel(s, labelsFromSelectors(guaranteedLabelsMatches, s.Selector)...)
 
 	case "delta", "idelta", "increase", "deriv", "irate", "rate":
 		// No change to labels.
+		s.KnownReturn = false // the function changes the value
 		s.Returns = promParser.ValueTypeVector
 		s = guaranteeLabel(s, labelsFromSelectors(guaranteedLabelsMatches, s.Selector)...)
 
@@ -594,6 +614,12 @@ If you're hoping to get instance specific labels this way and alert when some ta
 
 	case "scalar":
 		s.Returns = promParser.ValueTypeScalar
+		if s.IsDead {
+			// scalar() of nothing is NaN: it returns something even if its argument never does.
+			s.IsDead = false
+			s.IsDeadReason = ""
+			s.KnownReturn = false
+		}
 		s.IncludedLabels = nil
 		s.GuaranteedLabels = nil
 		s.FixedLabels = true
@@ -622,6 +648,7 @@ If you're hoping to get instance specific labels this way and alert when some ta
 
 	case "timestamp":
 		// No change to labels.
+		s.KnownReturn = false // the function changes the value
 		s.Returns = promParser.ValueTypeVector
 		s = guaranteeLabel(s, labelsFromSelectors(guaranteedLabelsMatches, s.Selector)...)
 
@@ -713,12 +740,17 @@ func parseBinOps(expr string, n *promParser.BinaryExpr) (src []Source) {
 				}
 				if ls.AlwaysReturns && rs.AlwaysReturns && ls.KnownReturn && rs.KnownReturn {
 					// Both sides always return something
+					kept := side.ReturnedNumber
 					side.ReturnedNumber, side.IsDead, side.IsDeadReason, side.IsDeadPosition = calculateStaticReturn(
 						expr,
 						ls, rs,
 						n.Op,
 						ls.IsDead,
 					)
+					if n.Op.IsComparisonOperator() && !n.ReturnBool {
+						// A comparison filters, the value that is kept is the one of the vector side.
+						side.ReturnedNumber = kept
+					}
 				}
 				src = append(src, side)
 			}
